@@ -495,11 +495,16 @@ def registry_evaluation():
         n_iban += 1
         exp = spec_candidates(group)
         allowed = spec_choice(exp)
-        bic = x.bic
-        if (bic is None) != (allowed is None) or (bic is not None and str(bic) not in allowed):
+        bic = T.native_obs(lambda: x.bic)
+        if isinstance(bic, (T.ExcTag, T.Escape)):
+            problems.append((f"IBAN({x!s}).bic raised", repr(bic)))
+        elif (bic is None) != (allowed is None) or (bic is not None and str(bic) not in allowed):
             problems.append((f"IBAN({x!s}).bic", dict(got=str(bic), allowed=sorted(allowed or []))))
-        if x.bank != group[0] or x.bank_name != group[0]["name"] or x.bank_short_name != group[0]["short_name"]:
-            problems.append((f"IBAN({x!s}).bank / bank_name / bank_short_name", None))
+        acc = T.native_obs(lambda: (x.bank, x.bank_name, x.bank_short_name))
+        if acc != (group[0], group[0]["name"], group[0]["short_name"]):
+            problems.append((f"IBAN({x!s}).bank / bank_name / bank_short_name", repr(acc)[:200]))
+        if len(problems) > 5:
+            break
     for text in ("DE89000000000532013000", "GB29XXXX60161331926819", "NO9300001117947"):
         x = IBAN(text, allow_invalid=True)
         if x.bic is not None or x.bank is not None or x.bank_name is not None or x.bank_short_name is not None:
